@@ -2,6 +2,14 @@ import Amgcl.Proofs.SolverCG
 import Amgcl.Proofs.SolverBiCGStab
 import Amgcl.Proofs.SolverRichardson
 import Amgcl.Model.SolverPreonly
+import Amgcl.Proofs.SolverGMRES
+import Amgcl.Proofs.SolverFGMRES
+import Amgcl.Proofs.SolverLGMRES
+import Amgcl.Proofs.SolverGMRESIndep
+import Amgcl.Proofs.SolverFGMRESIndep
+import Amgcl.Proofs.SolverLGMRESIndep
+import Amgcl.Proofs.SolverIDRsIndep
+import Amgcl.Proofs.SolverBiCGStabLIndep
 import Mathlib.Algebra.Order.Field.Rat
 /-!
 # C15 — solver objects are reusable; calls do not leak state  (CG, BiCGStab, Richardson, preonly)
@@ -204,5 +212,263 @@ example : (CG.run ({ maxiter := 3, tol := 1/2, abstol := 0, nsSearch := false } 
     (CG.Work.fresh 2) #[2, -3] #[1, 0]).obs = (.ok (0, 0), #[1, 0]) := by decide +kernel
 
 end nonvacuous
+
+/-! ## Second package: GMRES, FGMRES, LGMRES, IDR(s), BiCGStab(L) -/
+section second
+variable {K : Type} [Field K] [DecidableEq K] [LT K] [DecidableLT K]
+
+/-! ### the result of a call does not depend on the incoming work arrays; histories equal fresh objects
+
+GMRES: the dense work arrays `H` (`(M+1)×M`), `s, cs, sn` (`M+1`) and the vectors `r`, `v[0..M]`; FGMRES: `H, s, cs, sn`,
+`v[0..M]`, `z[0..M)`.  Every cell is written before it is read: `s` is filled at the start of each restart cycle,
+column `j` of `H` (rows `0..j+1`), `cs[j]`, `sn[j]`, `v[j+1]`, `z[j]` are written in inner iteration `j` and only
+columns / entries `< j` written earlier in the SAME cycle are read; the back substitution reads `H(k,i)`, `k ≤ i < j`;
+`lin_comb` reads `v[i]` / `z[i]`, `i < j`.  Proved for every matrix, every function `P`, both sides, every content
+of the arrays (relational invariant over both loops, `Proofs/SolverGivens.lean`, `Proofs/Solver*GMRESIndep.lean`). -/
+
+theorem gmres_out_indep_ws (prm : GMRES.Params K) (ip : Vec K → Vec K → K) (sqrt : K → K) (eps : K) (A : CRS K)
+    (P : Vec K → Vec K) (ws ws' : GMRES.Work K) (f x0 : Vec K) :
+    (GMRES.run prm ip sqrt eps A P ws f x0).obs = (GMRES.run prm ip sqrt eps A P ws' f x0).obs :=
+  GMRES.run_obs_indep prm ip sqrt eps A P ws ws' f x0
+
+theorem fgmres_out_indep_ws (prm : FGMRES.Params K) (ip : Vec K → Vec K → K) (sqrt : K → K) (eps : K) (A : CRS K)
+    (P : Vec K → Vec K) (ws ws' : FGMRES.Work K) (f x0 : Vec K) :
+    (FGMRES.run prm ip sqrt eps A P ws f x0).obs = (FGMRES.run prm ip sqrt eps A P ws' f x0).obs :=
+  FGMRES.run_obs_indep prm ip sqrt eps A P ws ws' f x0
+
+theorem gmres_history_eq_fresh (prm : GMRES.Params K) (ip : Vec K → Vec K → K) (sqrt : K → K) (eps : K)
+    (w w0 : GMRES.Work K) (cs : List (Call K)) :
+    history (GMRES.call prm ip sqrt eps) w cs = cs.map (fun c => (GMRES.call prm ip sqrt eps w0 c).1) :=
+  history_eq_fresh_of_indep _ (fun a b c => gmres_out_indep_ws prm ip sqrt eps c.A c.P a b c.f c.x0) w0 w cs
+
+theorem fgmres_history_eq_fresh (prm : FGMRES.Params K) (ip : Vec K → Vec K → K) (sqrt : K → K) (eps : K)
+    (w w0 : FGMRES.Work K) (cs : List (Call K)) :
+    history (FGMRES.call prm ip sqrt eps) w cs = cs.map (fun c => (FGMRES.call prm ip sqrt eps w0 c).1) :=
+  history_eq_fresh_of_indep _ (fun a b c => fgmres_out_indep_ws prm ip sqrt eps c.A c.P a b c.f c.x0) w0 w cs
+
+/-! ### LGMRES — the documented exception, made precise
+
+With `always_reset = false` the augmentation vectors (`outer_v`, pointing into `outer_v_data`) survive the call by
+design.  `lgmres_out_indep_of_aug` shows that they are the ONLY state that leaks: two objects whose augmentation
+buffers agree (same slot list, same vectors in the listed slots) return the same result, whatever the other work
+arrays (`H, H0, s, cs, sn, r, vs[], ws[]`, unlisted slots) contain.  With `always_reset = true` the buffer is emptied
+first, hence `lgmres_reset_indep`.  `0 < M + K` excludes the configuration `M = K = 0` in which the real code
+indexes an empty buffer (the driver requires `M ≥ 1`); `CBuf.WF` (`size ≤ capacity`, `start = 0` until full) is the
+representation invariant of `circular_buffer`, true of a fresh object and preserved by every call
+(`LGMRES.run_aug_preserved`). -/
+
+theorem lgmres_out_indep_of_aug (prm : LGMRES.Params K) (hM : 0 < prm.MM) (ip : Vec K → Vec K → K) (sqrt : K → K)
+    (eps : K) (A : CRS K) (P : Vec K → Vec K) (ws ws' : LGMRES.Work K) (f x0 : Vec K)
+    (hov : ws.ov = ws'.ov) (hwf : LGMRES.CBuf.WF prm.K' ws.ov)
+    (hod : ∀ slot, slot ∈ ws.ov.buf → ws.odata.get slot = ws'.odata.get slot) :
+    (LGMRES.run prm ip sqrt eps A P ws f x0).obs = (LGMRES.run prm ip sqrt eps A P ws' f x0).obs :=
+  LGMRES.run_obs_indep_of_aug prm hM ip sqrt eps A P ws ws' f x0 hov hwf hod
+
+/-- **LGMRES with `always_reset = true`: the result of a call does not depend on the incoming work space** -/
+theorem lgmres_reset_indep (prm : LGMRES.Params K) (hM : 0 < prm.MM) (har : prm.alwaysReset = true)
+    (ip : Vec K → Vec K → K) (sqrt : K → K) (eps : K) (A : CRS K) (P : Vec K → Vec K)
+    (ws ws' : LGMRES.Work K) (f x0 : Vec K) :
+    (LGMRES.run prm ip sqrt eps A P ws f x0).obs = (LGMRES.run prm ip sqrt eps A P ws' f x0).obs :=
+  LGMRES.run_obs_indep_reset prm hM har ip sqrt eps A P ws ws' f x0
+
+theorem lgmres_history_eq_fresh_reset (prm : LGMRES.Params K) (hM : 0 < prm.MM) (har : prm.alwaysReset = true)
+    (ip : Vec K → Vec K → K) (sqrt : K → K) (eps : K) (w w0 : LGMRES.Work K) (cs : List (Call K)) :
+    history (LGMRES.call prm ip sqrt eps) w cs = cs.map (fun c => (LGMRES.call prm ip sqrt eps w0 c).1) :=
+  LGMRES.history_eq_fresh_reset prm hM har ip sqrt eps w w0 cs
+
+/-- the reuse statement that IS true for `always_reset = false`: histories on two objects with the same
+augmentation state are equal (everything else the objects carry is irrelevant) -/
+theorem lgmres_history_eq_of_aug (prm : LGMRES.Params K) (hM : 0 < prm.MM) (ip : Vec K → Vec K → K) (sqrt : K → K)
+    (eps : K) (w w' : LGMRES.Work K) (cs : List (Call K)) (h : LGMRES.AugRel prm.K' w w') :
+    history (LGMRES.call prm ip sqrt eps) w cs = history (LGMRES.call prm ip sqrt eps) w' cs :=
+  LGMRES.history_eq_of_aug prm hM ip sqrt eps w w' cs h
+
+/-! ### IDR(s): `M, f, c`, `r, v, t, x_s, r_s`, `G[0..s)`, `U[0..s)` — `G`, `U`, `M` are re-initialised on entry, `f` at
+the top of every pass, `c[i]` (`k ≤ i < s`) is written before `c[j]` (`k ≤ j < i`) is read; including the two
+exception paths.  The shadow space `P` belongs to the object (constructor) and is the same in both runs. -/
+
+theorem idrs_out_indep_ws (prm : IDRs.Params K) (ip : Vec K → Vec K → K) (sqrt : K → K) (eps : K) (A : CRS K)
+    (Prec : Vec K → Vec K) (Pv : FArr (Vec K)) (ws ws' : IDRs.Work K) (f x0 : Vec K) :
+    (IDRs.run prm ip sqrt eps A Prec Pv ws f x0).obs = (IDRs.run prm ip sqrt eps A Prec Pv ws' f x0).obs :=
+  IDRs.run_obs_indep prm ip sqrt eps A Prec Pv ws ws' f x0
+
+theorem idrs_history_eq_fresh (prm : IDRs.Params K) (ip : Vec K → Vec K → K) (sqrt : K → K) (eps : K)
+    (Pv : FArr (Vec K)) (w w0 : IDRs.Work K) (cs : List (Call K)) :
+    history (IDRs.call prm ip sqrt eps Pv) w cs = cs.map (fun c => (IDRs.call prm ip sqrt eps Pv w0 c).1) :=
+  IDRs.history_eq_fresh prm ip sqrt eps Pv w w0 cs
+
+theorem idrs_zero_rhs (prm : IDRs.Params K) (ip : Vec K → Vec K → K) (sqrt : K → K) (eps : K) (A : CRS K)
+    (Prec : Vec K → Vec K) (Pv : FArr (Vec K)) (ws : IDRs.Work K) (f x0 : Vec K)
+    (hf : nrmA ip sqrt f < eps) (hns : prm.nsSearch = false) :
+    IDRs.run prm ip sqrt eps A Prec Pv ws f x0 = (.ok (0, nrmA ip sqrt f), vclear x0.size, ws) :=
+  IDRs.run_zero_rhs prm ip sqrt eps A Prec Pv ws f x0 hf hns
+
+/-- IDR(s) tests `res_norm <= eps` on entry (non-strict, unlike the GMRES family) -/
+theorem idrs_converged_guess_unchanged (prm : IDRs.Params K) (ip : Vec K → Vec K → K) (sqrt : K → K) (eps : K)
+    (A : CRS K) (Prec : Vec K → Vec K) (Pv : FArr (Vec K)) (ws : IDRs.Work K) (f x0 : Vec K) (nf : K)
+    (hp : prologueA prm.nsSearch ip sqrt eps f = .go nf)
+    (hconv : ¬ IDRs.epsTol prm nf < nrmA ip sqrt (residual f A x0)) :
+    (IDRs.run prm ip sqrt eps A Prec Pv ws f x0).obs = (.ok (0, nrmA ip sqrt (residual f A x0) / nf), x0) :=
+  IDRs.run_converged_guess prm ip sqrt eps A Prec Pv ws f x0 nf hp hconv
+
+
+/-! ### BiCGStab(L): `Rt, X, B, T, R[0..L], U[0..L], MZa, MZb, Y0, YL` and the `QR` object's `tau, f` — `B, R[0], Rt, X, U[0]`
+are set on entry, `U[i], R[i]` (`1 ≤ i ≤ j`) are written by `preconditioner::spmv` earlier in the SAME pass (and in the
+very first step `beta = 0`, so `axpby(1, R[i], −beta, U[i])` does not read `U[i]`), `MZa` is rebuilt from `R[0..L]`,
+`MZb` copied, `QR.solve` overwrites `tau[0..k)`, `f[0..rows)` and the solution cells before reading them; including
+the three exception paths. -/
+
+theorem bicgstabl_out_indep_ws (prm : BiCGStabL.Params K) (ip : Vec K → Vec K → K) (sqrt : K → K) (eps c07 : K)
+    (A : CRS K) (P : Vec K → Vec K) (ws ws' : BiCGStabL.Work K) (f x0 : Vec K) :
+    (BiCGStabL.run prm ip sqrt eps c07 A P ws f x0).obs = (BiCGStabL.run prm ip sqrt eps c07 A P ws' f x0).obs :=
+  BiCGStabL.run_obs_indep prm ip sqrt eps c07 A P ws ws' f x0
+
+theorem bicgstabl_history_eq_fresh (prm : BiCGStabL.Params K) (ip : Vec K → Vec K → K) (sqrt : K → K) (eps c07 : K)
+    (w w0 : BiCGStabL.Work K) (cs : List (Call K)) :
+    history (BiCGStabL.call prm ip sqrt eps c07) w cs
+      = cs.map (fun c => (BiCGStabL.call prm ip sqrt eps c07 w0 c).1) :=
+  BiCGStabL.history_eq_fresh prm ip sqrt eps c07 w w0 cs
+
+theorem bicgstabl_zero_rhs (prm : BiCGStabL.Params K) (ip : Vec K → Vec K → K) (sqrt : K → K) (eps c07 : K)
+    (A : CRS K) (P : Vec K → Vec K) (ws : BiCGStabL.Work K) (f x0 : Vec K) (hf : nrm ip sqrt f < eps)
+    (hns : prm.nsSearch = false) :
+    BiCGStabL.run prm ip sqrt eps c07 A P ws f x0 = (.ok (0, nrm ip sqrt f), vclear x0.size, ws) :=
+  BiCGStabL.run_zero_rhs prm ip sqrt eps c07 A P ws f x0 hf hns
+
+/-- BiCGStab(L) has no entry test; a converged guess fails the loop guard `zeta >= eps` at once and the code then
+executes `done:` — it returns `x₀ + 0` (left) resp. `x₀ + P(0)` (right), which is `x₀` when `P 0 = 0` (every linear
+`P`) and `x₀` has the system's length. -/
+theorem bicgstabl_converged_guess_unchanged (prm : BiCGStabL.Params K) (ip : Vec K → Vec K → K) (sqrt : K → K)
+    (eps c07 : K) (A : CRS K) (P : Vec K → Vec K) (ws : BiCGStabL.Work K) (f x0 : Vec K) (nf : K)
+    (hp : prologue prm.nsSearch ip sqrt eps f = .go nf)
+    (hconv : nrm ip sqrt (BiCGStab.Rf prm.pside P f A x0) < BiCGStabL.epsTol prm nf)
+    (hx0 : x0.size = (BiCGStab.Rf prm.pside P f A x0).size)
+    (hP0 : P (vclear (BiCGStab.Rf prm.pside P f A x0).size) = vclear (BiCGStab.Rf prm.pside P f A x0).size) :
+    (BiCGStabL.run prm ip sqrt eps c07 A P ws f x0).obs
+      = (.ok (0, nrm ip sqrt (BiCGStab.Rf prm.pside P f A x0) / nf), x0) := by
+  have h1 := (BiCGStabL.run_converged_guess prm ip sqrt eps c07 A P ws f x0 nf hp hconv).1
+  have h2 := BiCGStabL.run_converged_guess_x prm ip sqrt eps c07 A P ws f x0 nf hp hconv hx0 hP0
+  simp only [Run.obs, Run.out, Run.x] at *
+  rw [h1, h2]
+
+
+/-! ### zero right-hand side (`‖f‖ < eps(1)`, `ns_search` off): `x = 0`, zero iterations, the work arrays untouched -/
+
+theorem gmres_zero_rhs (prm : GMRES.Params K) (ip : Vec K → Vec K → K) (sqrt : K → K) (eps : K) (A : CRS K)
+    (P : Vec K → Vec K) (ws : GMRES.Work K) (f x0 : Vec K) (hf : nrmA ip sqrt f < eps)
+    (hns : prm.nsSearch = false) :
+    GMRES.run prm ip sqrt eps A P ws f x0 = (.ok (0, nrmA ip sqrt f), vclear x0.size, ws) :=
+  GMRES.run_trivial _ _ _ _ _ _ _ _ _ _ ((prologueA_trivial _ _ _ _ _ _).mpr ⟨hf, hns, rfl⟩)
+
+theorem fgmres_zero_rhs (prm : FGMRES.Params K) (ip : Vec K → Vec K → K) (sqrt : K → K) (eps : K) (A : CRS K)
+    (P : Vec K → Vec K) (ws : FGMRES.Work K) (f x0 : Vec K) (hf : nrmA ip sqrt f < eps)
+    (hns : prm.nsSearch = false) :
+    FGMRES.run prm ip sqrt eps A P ws f x0 = (.ok (0, nrmA ip sqrt f), vclear x0.size, ws) :=
+  FGMRES.run_trivial _ _ _ _ _ _ _ _ _ _ ((prologueA_trivial _ _ _ _ _ _).mpr ⟨hf, hns, rfl⟩)
+
+/-- (with `always_reset` the call has nevertheless dropped the augmentation vectors: `outer_v.clear()` is the first
+statement of `operator()`) -/
+theorem lgmres_zero_rhs (prm : LGMRES.Params K) (ip : Vec K → Vec K → K) (sqrt : K → K) (eps : K) (A : CRS K)
+    (P : Vec K → Vec K) (ws : LGMRES.Work K) (f x0 : Vec K) (hf : nrmA ip sqrt f < eps)
+    (hns : prm.nsSearch = false) :
+    LGMRES.run prm ip sqrt eps A P ws f x0 = (.ok (0, nrmA ip sqrt f), vclear x0.size, LGMRES.reset prm ws) :=
+  LGMRES.run_trivial _ _ _ _ _ _ _ _ _ _ ((prologueA_trivial _ _ _ _ _ _).mpr ⟨hf, hns, rfl⟩)
+
+/-! ### an initial guess that already satisfies the tolerance (`norm_r < eps`) is returned unchanged in zero
+iterations with its true residual — the very array `x₀`, no `x₀ + P(0)` is formed -/
+
+theorem gmres_converged_guess_unchanged (prm : GMRES.Params K) (ip : Vec K → Vec K → K) (sqrt : K → K) (eps : K)
+    (A : CRS K) (P : Vec K → Vec K) (ws : GMRES.Work K) (f x0 : Vec K) (nf : K)
+    (hp : prologueA prm.nsSearch ip sqrt eps f = .go nf)
+    (hconv : nrmA ip sqrt (BiCGStab.Rf prm.pside P f A x0) < GMRES.epsTol prm nf ∨ prm.maxiter = 0) :
+    (GMRES.run prm ip sqrt eps A P ws f x0).obs
+      = (.ok (0, nrmA ip sqrt (BiCGStab.Rf prm.pside P f A x0) / nf), x0) := by
+  rw [GMRES.run_go _ _ _ _ _ _ _ _ _ nf hp]
+  have hn : (GMRES.init prm ip sqrt A P ws f x0).normR = nrmA ip sqrt (BiCGStab.Rf prm.pside P f A x0) := by
+    unfold GMRES.init; rw [GMRES.head_normR]
+  have hstop : GMRES.stop prm.maxiter (GMRES.epsTol prm nf) (GMRES.init prm ip sqrt A P ws f x0) = true := by
+    simp only [GMRES.stop, Bool.or_eq_true, decide_eq_true_eq, hn, GMRES.init_iter]
+    rcases hconv with h | h
+    · exact Or.inl h
+    · exact Or.inr (by omega)
+  rw [GMRES.final_of_stop prm ip sqrt A P ws f x0 nf hstop]
+  simp only [Run.obs, GMRES.init_iter, GMRES.init_x, hn]
+
+theorem fgmres_converged_guess_unchanged (prm : FGMRES.Params K) (ip : Vec K → Vec K → K) (sqrt : K → K) (eps : K)
+    (A : CRS K) (P : Vec K → Vec K) (ws : FGMRES.Work K) (f x0 : Vec K) (nf : K)
+    (hp : prologueA prm.nsSearch ip sqrt eps f = .go nf)
+    (hconv : nrmA ip sqrt (residual f A x0) < FGMRES.epsTol prm nf ∨ prm.maxiter = 0) :
+    (FGMRES.run prm ip sqrt eps A P ws f x0).obs = (.ok (0, nrmA ip sqrt (residual f A x0) / nf), x0) := by
+  rw [FGMRES.run_go _ _ _ _ _ _ _ _ _ nf hp]
+  have hn : (FGMRES.init ip sqrt A ws f x0).normR = nrmA ip sqrt (residual f A x0) := rfl
+  have hstop : FGMRES.stop prm.maxiter (FGMRES.epsTol prm nf) (FGMRES.init ip sqrt A ws f x0) = true := by
+    simp only [FGMRES.stop, Bool.or_eq_true, decide_eq_true_eq, hn, FGMRES.init_iter]
+    rcases hconv with h | h
+    · exact Or.inl h
+    · exact Or.inr (by omega)
+  rw [FGMRES.final_of_stop prm ip sqrt A P ws f x0 nf hstop]
+  simp only [Run.obs, FGMRES.init_iter, FGMRES.init_x, hn]
+
+/-- (also for an object that carries augmentation vectors of earlier calls) -/
+theorem lgmres_converged_guess_unchanged (prm : LGMRES.Params K) (ip : Vec K → Vec K → K) (sqrt : K → K) (eps : K)
+    (A : CRS K) (P : Vec K → Vec K) (ws : LGMRES.Work K) (f x0 : Vec K) (nf : K)
+    (hp : prologueA prm.nsSearch ip sqrt eps f = .go nf)
+    (hconv : nrmA ip sqrt (BiCGStab.Rf prm.pside P f A x0) < LGMRES.epsTol prm nf ∨ prm.maxiter = 0) :
+    (LGMRES.run prm ip sqrt eps A P ws f x0).obs
+      = (.ok (0, nrmA ip sqrt (BiCGStab.Rf prm.pside P f A x0) / nf), x0) := by
+  rw [LGMRES.run_go _ _ _ _ _ _ _ _ _ nf hp]
+  have hn : (LGMRES.init prm ip sqrt A P (LGMRES.reset prm ws) f x0).normR
+      = nrmA ip sqrt (BiCGStab.Rf prm.pside P f A x0) := by
+    unfold LGMRES.init; rw [LGMRES.head_normR]
+  have hstop : LGMRES.stop prm.maxiter (LGMRES.epsTol prm nf)
+      (LGMRES.init prm ip sqrt A P (LGMRES.reset prm ws) f x0) = true := by
+    simp only [LGMRES.stop, Bool.or_eq_true, decide_eq_true_eq, hn, LGMRES.init_iter]
+    rcases hconv with h | h
+    · exact Or.inl h
+    · exact Or.inr (by omega)
+  rw [LGMRES.final_of_stop prm ip sqrt A P _ f x0 nf hstop]
+  simp only [Run.obs, LGMRES.init_iter, LGMRES.init_x, hn]
+
+end second
+
+/-! ### non-vacuity (second package) and the documented exception, over `ℚ`
+
+`sqrt := fun _ => 1` keeps the numbers small (the theorems hold for every function `sqrt`). -/
+section nonvacuous2
+
+private def B₀ : CRS ℚ := ⟨2, #[[(0, 2), (1, 1)], [(0, 1), (1, 3)]]⟩
+private def d₁ : Call ℚ := ⟨B₀, fun v => vcopy v, #[1, 3], #[0, 0]⟩
+private def d₂ : Call ℚ := ⟨A₀, fun v => spmv 1 M₀ v 0 #[], #[1, 3], #[1, 0]⟩
+private def gmPrm : GMRES.Params ℚ :=
+  { maxiter := 3, tol := 0, abstol := 0, nsSearch := false, M := 2, pside := .right }
+private def lgPrm (reset : Bool) : LGMRES.Params ℚ :=
+  { maxiter := 2, tol := 0, abstol := 0, nsSearch := false, M := 1, K' := 1, alwaysReset := reset, pside := .right }
+
+/-- a history of three GMRES(2) calls (each restarts once) on one object equals three fresh calls -/
+example : history (GMRES.call gmPrm stdIp (fun _ => 1) 0) (GMRES.Work.fresh 2) [d₁, d₂, d₁]
+    = [d₁, d₂, d₁].map (fun c => (GMRES.call gmPrm stdIp (fun _ => 1) 0 (GMRES.Work.fresh 2) c).1) :=
+  gmres_history_eq_fresh gmPrm stdIp (fun _ => 1) 0 _ _ _
+example : (GMRES.call gmPrm stdIp (fun _ => 1) 0 (GMRES.Work.fresh 2) d₁).1.1 = .ok (3, 1) := by decide +kernel
+
+/-- **LGMRES with `always_reset = false` is the documented exception of the property**: the SAME call made twice on
+one object returns two different vectors `x` — the second call augments its Krylov space with the update of the
+first one (`outer_v` survives the call). -/
+example : ((history (LGMRES.call (lgPrm false) stdIp (fun _ => 1) 0) (LGMRES.Work.fresh 2) [d₁, d₁]).map (·.2))
+    = [#[166968037230485/5843854536360724, 500901435020825/5843854536360724],
+       #[960969622406369773212596725137206215/33633937140973941234058135626309199181,
+         2882908868771428725685183823482091680/33633937140973941234058135626309199181]] := by decide +kernel
+
+/-- … whereas with `always_reset = true` both calls return the same vector -/
+example : ((history (LGMRES.call (lgPrm true) stdIp (fun _ => 1) 0) (LGMRES.Work.fresh 2) [d₁, d₁]).map (·.2))
+    = [#[166968037230485/5843854536360724, 500901435020825/5843854536360724],
+       #[166968037230485/5843854536360724, 500901435020825/5843854536360724]] := by decide +kernel
+
+/-- zero right-hand side and converged guess are inhabited for GMRES -/
+example : (GMRES.run gmPrm stdIp id (1/8) B₀ d₁.P (GMRES.Work.fresh 2) #[0, 0] #[5, 7]).obs
+    = (.ok (0, 0), #[0, 0]) := by decide +kernel
+example : (GMRES.run { gmPrm with tol := 1/2 } stdIp id 0 B₀ d₁.P (GMRES.Work.fresh 2) #[2, 1] #[1, 0]).obs
+    = (.ok (0, 0), #[1, 0]) := by decide +kernel
+
+end nonvacuous2
 
 end Amgcl.C15
